@@ -305,4 +305,25 @@ Section Run.
                  end).
 End Run.
 
+(* ---- long routes (family long_route of the walk stream) ----
+   A chain 0 -> 1 -> ... -> n (optionally with one dead-end side branch per chain vertex) has exactly ONE walk between
+   its two ends, so the property fixes the returned route completely: all n chain edges, in chain order for a Forward
+   search (vertex 0 -> n, or first chain edge -> last chain edge) and in the opposite order for a Reverse search.  The
+   verified check_route is quadratic over unary naturals (a 2,000-edge chain takes ~30 s under vm_compute), so routes
+   of 65,000+ edges are judged through summary facts the harness computes on the implementation's route (length, first
+   and last edge, number of joints where consecutive edges do not meet, repeated / unknown edges, rolling digest of the
+   edge id sequence); this line prints the closed-form expectation. *)
+Inductive lshape := LPlain | LRevIds | LBranch.
+(* edge id of the i-th chain edge (i -> i+1), 0 <= i < n *)
+Definition long_edge_id (sh : lshape) (n i : Z) : Z :=
+  match sh with LPlain => i | LRevIds => (n - 1 - i)%Z | LBranch => (2 * i)%Z end.
+Definition long_digest (sh : lshape) (n : Z) (reverse : bool) : Z :=
+  snd (Z.iter n (fun st : Z * Z =>
+                   let '(i, h) := st in
+                   let ci := if reverse then (n - 1 - i)%Z else i in
+                   ((i + 1)%Z, ((h * 1000003 + long_edge_id sh n ci) mod 9223372036854775808)%Z))
+         (0%Z, 7%Z)).
+Definition line_S_long (id : Z) (sh : lshape) (n : Z) (reverse : bool) : string :=
+  line "S" id ("Ok len=" ++ show_Z n ++ " leaves_origin=T enters_destination=T breaks=0 repeats=0 unknown_edges=0 digest="
+               ++ show_Z (long_digest sh n reverse)).
 End SR.
